@@ -17,8 +17,8 @@ deriving Inhabited
 
 inductive Stmt where
   | q (q : Query)
-  | bf (path : Path) (cmp : Cmp) (callee : Nat) (arg : PyVal) (kw : PyVal) (catch_ : Bool)
-  | sb (callee : Nat) (arg : PyVal) (kw : PyVal) (catch_ : Bool)
+  | bf (path : Path) (cmp : Cmp) (callee : Nat) (arg : PyVal) (kw : PyVal) (catch_ : Bool) (extra : List PyVal := [])
+  | sb (callee : Nat) (arg : PyVal) (kw : PyVal) (catch_ : Bool) (extra : List PyVal := [])
   | raise (tok : Nat)
   | write (const : Option String) (mtime : Option Nat)
   | ite (c : Cond) (t e : List Stmt)
@@ -151,16 +151,16 @@ def goStmt (ver : String → Json) (fuel : Nat) (fs : Array Func) (tgt : Option 
     if (match tgt with | some p => Path.tooLong p | none => false) then .raise (.os .other)
     else .write (match c with | some s => s | none => digest (render (.arr acc))) mt (k acc)
   | .ite c t e => if evalCond c acc then goStmts ver fuel fs tgt t acc k else goStmts ver fuel fs tgt e acc k
-  | .bf path cmp callee arg kw catch_ =>
-    match fuel, sanitize (.list false [arg]), sanitize kw with
+  | .bf path cmp callee arg kw catch_ extra =>
+    match fuel, sanitize (.list false (arg :: extra)), sanitize kw with
     | fuel'+1, some args, some kws =>
       let name := match fs[callee]? with | some f => f.name | none => "?"
       .buildFile path cmp name args kws (denoteFunc ver fuel' fs callee (some path) (firstOf args) kws)
         (callK catch_ acc k)
     | 0, _, _ => .raise (.internal "fuel")
     | _, _, _ => callK catch_ acc k (.error .typeErr)
-  | .sb callee arg kw catch_ =>
-    match fuel, sanitize (.list false [arg]), sanitize kw with
+  | .sb callee arg kw catch_ extra =>
+    match fuel, sanitize (.list false (arg :: extra)), sanitize kw with
     | fuel'+1, some args, some kws =>
       let name := match fs[callee]? with | some f => f.name | none => "?"
       .subbuild name args kws (denoteFunc ver fuel' fs callee none (firstOf args) kws) (callK catch_ acc k)
